@@ -611,7 +611,7 @@ func gen(kind string) func(t *rapid.T) Case {
 		case "treeset", "treemap":
 			c.Cmp = dom.AllCmps[rapid.IntRange(0, len(dom.AllCmps)-1).Draw(t, "cmp")]
 		case "treebidimap":
-			c.Cmp = dom.TotalCmps[rapid.IntRange(0, 2).Draw(t, "cmp")]
+			c.Cmp = dom.TotalCmps[rapid.IntRange(0, len(dom.TotalCmps)-1).Draw(t, "cmp")]
 		}
 		c.Adds = rapid.SliceOfN(rapid.IntRange(0, 12), 0, 10).Draw(t, "adds")
 		switch kind {
